@@ -73,8 +73,9 @@ StableProvideClauses(ev, t) ==
   ELSE LET A0 == Norm(R(st, 1), pc.dec[1])  B0 == Norm(R(st, 2), pc.dec[2])
            A1 == Norm(R(st, 1) ++ ev.args.d[1], pc.dec[1])  B1 == Norm(R(st, 2) ++ ev.args.d[2], pc.dec[2])
            suffix == IF pc.dec[1] # pc.dec[2] THEN "(unequal-decimals)" ELSE ""
-           tol == (N(16) ++ Lopsided(NMax(A1, B1), NMin(A0, B0))) ** CoarseUnit
-       IN MintChecks("C03", suffix, ev.out.minted, st.S, Dstar2(A0, B0, pc.amp), Dstar2(A1, B1, pc.amp), tol)
+           e0 == (N(16) ++ Lopsided(NMax(A0, B0), NMin(A0, B0))) ** CoarseUnit
+           e1 == (N(16) ++ Lopsided(NMax(A1, B1), NMin(A1, B1))) ** CoarseUnit
+       IN MintChecks("C03", suffix, ev.out.minted, st.S, Dstar2(A0, B0, pc.amp), Dstar2(A1, B1, pc.amp), e0, e1)
 StableWithdrawClauses(t) ==
   IF st.ptype # "stable" \/ ~InDomain(st) \/ ~InDomain(t) THEN <<>>
   ELSE << <<"C03.withdraw.invariant-per-LP-never-falls", (NormD(st) ** t.S) \preceq ((NormD(t) ++ One) ** st.S)>> >>
